@@ -254,7 +254,7 @@ def handle (s : Sexp) : Sexp :=
     | some data, some p, some o =>
       let render (segs : List Hexdump.Seg) : String := String.join (segs.map fun s => match s with
         | .text t => t
-        | .code "NORMAL" => "\x1b[1;0m"
+        | .code "NORMAL" => Gen.colorNormal
         | .code c => c)
       .list (.atom "ok" :: (Hexdump.hexdump data p o).map fun l =>
         .list [.atom (toString l.offset), .str (render l.values), .str (render l.chars)])
@@ -274,7 +274,7 @@ def handle (s : Sexp) : Sexp :=
     | some fields, some data, some o, some c =>
       let render (segs : List Hexdump.Seg) : String := String.join (segs.map fun s => match s with
         | .text t => t
-        | .code "NORMAL" => "\x1b[1;0m"
+        | .code "NORMAL" => Gen.colorNormal
         | .code c => c)
       let r := Dumpstruct.dumpstruct cls fields data o (c != 0)
       .list [.atom "ok", .list (r.hex.map fun l => .list [.atom (toString l.offset), .str (render l.values), .str (render l.chars)]),
